@@ -66,3 +66,11 @@ func init() {
 		return CStr(string(data))
 	})
 }
+
+func init() {
+	// protobuf (de)serialisation is third-party reflection code: opaque
+	reg("google.golang.org/protobuf/proto.Marshal", func(m *Machine, fr *frame, a []Value) Value {
+		m.stubs["opaque:proto.Marshal"]++
+		return Tuple{sliceOfStr(CStr("<protobuf>")), Iface{}}
+	})
+}
